@@ -437,6 +437,7 @@ class Expander:
             sink_selected_receivers(m.tree)
             unroll_literal_loops(m.tree)
             key_loops_to_items(m.tree)
+            inline_comprehension_temps(m.tree)
             flatten_spellings(m.tree)
             loops_to_comprehensions(m.tree)
             flatten_spellings(m.tree)
@@ -772,6 +773,19 @@ def _new_constants_of(m) -> Dict[str, ast.AST]:
             return None if l_ is None or r_ is None else ast.BinOp(left=l_, op=v.op, right=r_)
         if isinstance(v, ast.Name) and v.id in binds and len(binds[v.id]) == 1 and v.id not in seen and v.id not in glob:
             return resolve(binds[v.id][0], seen + (v.id,))
+        if isinstance(v, ast.Call) and (isinstance(v.func, ast.Name) or (isinstance(v.func, ast.Attribute) and _pure_path(v.func))) and not any(isinstance(a_, ast.Starred) for a_ in v.args) \
+                and not any(k_.arg is None for k_ in v.keywords):
+            # a value object built from literals (datetime(1800, 1, 1), timedelta(days=8), BDay(2)): the same value wherever it is built;
+            # mutable containers are not constants
+            root_ = v.func
+            while isinstance(root_, ast.Attribute):
+                root_ = root_.value
+            fname_ = v.func.id if isinstance(v.func, ast.Name) else v.func.attr
+            if fname_ not in ("list", "dict", "set", "defaultdict", "deque", "OrderedDict", "bytearray", "open", "getLogger", "Lock", "RLock", "count", "iter") and root_.id not in binds:
+                as_ = [resolve(a_, seen) for a_ in v.args]
+                ks_ = [resolve(k_.value, seen) for k_ in v.keywords]
+                if all(x is not None for x in as_ + ks_):
+                    return ast.Call(func=_clone(v.func), args=as_, keywords=[ast.keyword(arg=k_.arg, value=kv) for k_, kv in zip(v.keywords, ks_)])
         if isinstance(v, ast.Lambda) and not v.args.defaults and not v.args.kw_defaults and not v.args.vararg and not v.args.kwarg:
             # a lambda over its own parameters and imported / builtin names (a table of predicates)
             own = {a.arg for a in v.args.args}
@@ -1542,6 +1556,47 @@ def loops_to_comprehensions(tree: ast.AST):
                     i -= 1
 
 
+def inline_comprehension_temps(tree: ast.AST):
+    """`t = <comprehension / generator expression>` whose only use is one load in a later statement of the same block, with
+    nothing in between re-binding a name the comprehension reads: the comprehension is moved to its use (`g = (f(x) for x in
+    xs); return list(chain.from_iterable(g))` is the one-liner)."""
+    for fn in [n for n in ast.walk(tree) if isinstance(n, ast.FunctionDef)]:
+        loads: Dict[str, int] = {}
+        stores: Dict[str, int] = {}
+        for x in ast.walk(fn):
+            if isinstance(x, ast.Name):
+                d_ = loads if isinstance(x.ctx, ast.Load) else stores
+                d_[x.id] = d_.get(x.id, 0) + 1
+            elif isinstance(x, ast.arg):
+                stores[x.arg] = stores.get(x.arg, 0) + 1
+        for owner in ast.walk(fn):
+            for field in ("body", "orelse", "finalbody"):
+                blk = getattr(owner, field, None)
+                if not (isinstance(blk, list) and blk and isinstance(blk[0], ast.stmt)):
+                    continue
+                i = 0
+                while i < len(blk):
+                    st = blk[i]
+                    if (isinstance(st, ast.Assign) and len(st.targets) == 1 and isinstance(st.targets[0], ast.Name) and isinstance(st.value, (ast.GeneratorExp, ast.ListComp, ast.SetComp, ast.DictComp))
+                            and stores.get(st.targets[0].id) == 1 and loads.get(st.targets[0].id) == 1):
+                        t = st.targets[0].id
+                        bound = {x.id for g in st.value.generators for x in ast.walk(g.target) if isinstance(x, ast.Name)}
+                        free = {x.id for x in ast.walk(st.value) if isinstance(x, ast.Name) and isinstance(x.ctx, ast.Load)} - bound
+                        for j in range(i + 1, len(blk)):
+                            use = [x for x in ast.walk(blk[j]) if isinstance(x, ast.Name) and x.id == t and isinstance(x.ctx, ast.Load)]
+                            rebinds = any(isinstance(x, ast.Name) and isinstance(x.ctx, (ast.Store, ast.Del)) and x.id in free for x in ast.walk(blk[j]))
+                            if use:
+                                simple = isinstance(blk[j], (ast.Assign, ast.Return, ast.Expr, ast.AugAssign, ast.AnnAssign))
+                                if simple and not rebinds:
+                                    _replace_node(blk[j], use[0], st.value)
+                                    del blk[i]
+                                    i -= 1
+                                break
+                            if rebinds:
+                                break
+                    i += 1
+
+
 def flatten_spellings(tree: ast.AST):
     """`list(itertools.chain(*[E for T in IT]))` and `list(itertools.chain.from_iterable(E for T in IT))` are the nested
     comprehension `[e for T in IT for e in E]`; `name.sort()` (no arguments) on a local list is `name = sorted(name)`."""
@@ -1766,6 +1821,11 @@ def more_spellings(tree: ast.AST):
                 if fname == "filter":
                     return ast.GeneratorExp(elt=ast.Name(id=v_, ctx=ast.Load()), generators=[ast.comprehension(target=tgt, iter=it_, ifs=[f_.body], is_async=0)])
                 return ast.GeneratorExp(elt=f_.body, generators=[ast.comprehension(target=tgt, iter=it_, ifs=[], is_async=0)])
+            if fname == "map" and isinstance(f_, ast.Call) and isinstance(f_.func, ast.Name) and f_.func.id == "attrgetter" and len(f_.args) == 1 and not f_.keywords \
+                    and isinstance(f_.args[0], ast.Constant) and isinstance(f_.args[0].value, str) and f_.args[0].value.isidentifier():
+                # map(attrgetter("a"), IT) is (x.a for x in IT)
+                return ast.GeneratorExp(elt=ast.Attribute(value=ast.Name(id="_m__x", ctx=ast.Load()), attr=f_.args[0].value, ctx=ast.Load()),
+                                        generators=[ast.comprehension(target=ast.Name(id="_m__x", ctx=ast.Store()), iter=it_, ifs=[], is_async=0)])
             if fname == "map" and (isinstance(f_, ast.Name) or (isinstance(f_, ast.Attribute) and _pure_path(f_))):
                 return ast.GeneratorExp(elt=ast.Call(func=f_, args=[ast.Name(id="_m__x", ctx=ast.Load())], keywords=[]), generators=[ast.comprehension(target=ast.Name(id="_m__x", ctx=ast.Store()), iter=it_, ifs=[], is_async=0)])
         if fname == "starmap" and len(c.args) == 2 and not c.keywords and (isinstance(c.args[0], ast.Name) or (isinstance(c.args[0], ast.Attribute) and _pure_path(c.args[0]))):
@@ -1788,6 +1848,19 @@ def more_spellings(tree: ast.AST):
                 rhs = ast.Call(func=ast.Name(id="set", ctx=ast.Load()), args=[rhs], keywords=[])
             return ast.BinOp(left=c.func.value, op=ast.BitOr(), right=rhs)
         return None
+    # in iteration position, chain(a, b, ...) yields what a + b + ... yields
+    for node in ast.walk(tree):
+        if isinstance(node, (ast.For, ast.comprehension)) and isinstance(node.iter, ast.Call) and not node.iter.keywords and len(node.iter.args) >= 2 \
+                and not any(isinstance(a_, ast.Starred) for a_ in node.iter.args):
+            fnm = ast.unparse(node.iter.func)
+            if fnm in ("itertools.chain", "chain"):
+                acc = node.iter.args[0]
+                for a_ in node.iter.args[1:]:
+                    acc = ast.BinOp(left=acc, op=ast.Add(), right=a_)
+                for x in ast.walk(acc):
+                    if not hasattr(x, "lineno"):
+                        ast.copy_location(x, node.iter)
+                node.iter = acc
     changed = True
     rounds = 0
     while changed and rounds < 4:
